@@ -254,6 +254,46 @@ M=[
 		}
 	}
 	if !existed || start {"""),
+ ("M33-keyed-getkey-leaks-lock-on-miss","C06","keyed/keyed.go","""func (k *Keyed[K, V]) GetKey(key K) (V, bool) {
+	k.mtx.Lock()
+	defer k.mtx.Unlock()
+
+	v, existed := k.routines[key]
+	if !existed {
+		var empty V
+		return empty, false
+	}
+
+	return v.data, true
+}""","""func (k *Keyed[K, V]) GetKey(key K) (V, bool) {
+	k.mtx.Lock()
+
+	v, existed := k.routines[key]
+	if !existed {
+		var empty V
+		return empty, false
+	}
+
+	k.mtx.Unlock()
+	return v.data, true
+}"""),
+ ("M34-routine-waitexited-misses-exit-broadcast","C14","routine/routine.go","""			for i := len(r.r.exitedCbs) - 1; i >= 0; i-- {
+				// run after unlocking bcast
+				defer r.r.exitedCbs[i](err)
+			}
+			broadcast()
+		}
+	})
+}""","""			for i := len(r.r.exitedCbs) - 1; i >= 0; i-- {
+				// run after unlocking bcast
+				defer r.r.exitedCbs[i](err)
+			}
+			if r.r.retryBo != nil {
+				broadcast()
+			}
+		}
+	})
+}"""),
 ]
 def main():
     out='/verif/mutants'
